@@ -51,6 +51,10 @@ def pick_program(ctx, rnd, grammar, max_len=3000):
     return fn, src, applied
 
 
+def before_src_of(step):
+    return step.get('before_src') or ''
+
+
 def re_search(pat, s):
     import re
     return re.search(pat, s, re.M)
@@ -85,6 +89,8 @@ def classify_c01(step, detail, root):
             pass
     if any(c.startswith('*') and not c.startswith('**') for c in codes) and step['kind'] not in ('pattern', 'type_param', 'arg'):
         return f'starred-accepted-into:{step["ptype"]}.{step["field"]}'
+    if step['kind'] == 'stmt' and re_search(r'\\\n[ \t]*;', before_src_of(step)):
+        return 'statement-cut-before-semicolon-on-continuation-line'
     if step.get('before_dangling_continuation') and step['kind'] == 'stmt':
         return 'statement-ending-in-dangling-line-continuation'
     if 'Delete' in (step.get('anc') or ()) and any('*' in c for c in codes):
@@ -107,6 +113,15 @@ def classify_c01(step, detail, root):
             ref_items = [len(n.items) for n in ast.walk(ref) if isinstance(n, (ast.With, ast.AsyncWith))]
             if live_items != ref_items:
                 return 'with-sole-parenthesized-tuple-item-reparsed-as-items'
+        except SyntaxError:
+            pass
+    if step['kind'] == 'target' and isinstance(code, str):
+        try:
+            ast.parse('(\n' + code + '\n)')
+            try:
+                ast.parse('[\n' + code + '\n] = 0')
+            except SyntaxError:
+                return 'non-target-expression-accepted-into-store-slot'
         except SyntaxError:
             pass
     if step['ptype'] == 'Try' and step['field'] == 'handlers':
@@ -141,12 +156,12 @@ def check_after(ctx, FST, root, step, before_src, prop='C01', classify=classify_
     diff = first_diff(D(ref), D(root.a)) if ref is not None else {}
     import re
     ws = set(''.join(re.findall(r'^[ \t]+(?=\S)', before_src, re.M)))
-    step = dict(step, before_mixed_indent=len(ws) > 1,
+    step = dict(step, before_src=before_src, before_mixed_indent=len(ws) > 1,
                 before_dangling_continuation=bool(re.search(r'\\\n[ \t]*(\n|$)', before_src)))
     key = classify(step, detail, root)
     ctx.violation(key, f'after {step["op"]} on {step["ptype"]}.{step["field"]} ({step["ttype"]}) form={step["form"]} '
                   f'code={short(step.get("code"), 80)!r} opts={step["opts"]}: {detail}; src={short(root.src, 300)!r} diff={diff}',
-                  {'workload': 'seq', 'src': before_src, 'steps': [step]}, prop=prop)
+                  {'workload': 'seq', 'src': before_src, 'steps': [{k: v for k, v in step.items() if k != 'before_src'}]}, prop=prop)
     return False
 
 
